@@ -114,6 +114,9 @@ namespace occa {
           function_t &func = kernelSmnt.function();
 
           kernelMetadata_t &metadata = metadataMap[func.name()];
+          // Also for kernels without arguments: otherwise their argument
+          // count is only checked once they are loaded from the cache
+          metadata.initialized = true;
           metadata.name = func.name();
 
           int args = (int) func.args.size();
